@@ -717,6 +717,15 @@ class KindInterp:
         if isinstance(e, ast.DictComp):
             return Py('dict')
         if isinstance(e, ast.Dict):
+            # a dispatch table: its values as one abstract element (keys must be static)
+            if e.values and all(k is not None for k in e.keys):
+                elem = None
+                for k, v in zip(e.keys, e.values):
+                    if not self.is_static(self.eval(k, env)):
+                        return Py('dict')
+                    elem = join(elem, self.eval(v, env))
+                if isinstance(elem, (Fn, FnSet)):
+                    return UList(elem)
             return Py('dict')
         if isinstance(e, ast.JoinedStr):
             return Py('str')
@@ -1059,6 +1068,8 @@ class KindInterp:
     def method(self, m: 'MethodOf', args: list[Any], kwargs: dict[str, Any], e: ast.Call) -> Any:
         base, name = m.base, m.name
         vals = [a.elem if isinstance(a, StarArg) else a for a in args]
+        if isinstance(base, UList) and isinstance(base.elem, (Fn, FnSet)) and name in ('get', 'pop', '__getitem__'):
+            return base.elem  # lookup in a table of callables (a missing key gives None / raises: not a callable result)
         if isinstance(base, AtRef):
             if not base.indexed:
                 return Unknown('.at used without an index')
